@@ -505,19 +505,22 @@ func (in *inliner) rewriteStmt(s ast.Stmt, owner *ast.FuncDecl, depth int) []ast
 	case *ast.ExprStmt:
 		if ce, ok := x.X.(*ast.CallExpr); ok {
 			if g := in.candidateCallee(ce); g != nil {
-				if repl, ok := in.expand(ce, g, nil, token.ILLEGAL, nil, false); ok {
+				if repl, ok := in.expand(ce, g, nil, token.ILLEGAL, nil, nil, false); ok {
 					return in.again(repl, owner, depth)
 				}
 			}
 		}
 		if pre, ok := in.hoist(s, []*ast.Expr{&x.X}); ok {
+			if repl, ok := in.tailDup(pre, s, false); ok {
+				return repl
+			}
 			return in.again(append(pre, s), owner, depth)
 		}
 	case *ast.AssignStmt:
 		if len(x.Rhs) == 1 && (x.Tok == token.DEFINE || x.Tok == token.ASSIGN) {
 			if ce, ok := x.Rhs[0].(*ast.CallExpr); ok {
 				if g := in.candidateCallee(ce); g != nil {
-					if repl, ok := in.expand(ce, g, x.Lhs, x.Tok, nil, false); ok {
+					if repl, ok := in.expand(ce, g, x.Lhs, x.Tok, nil, nil, false); ok {
 						return in.again(repl, owner, depth)
 					}
 				}
@@ -546,7 +549,9 @@ func (in *inliner) rewriteStmt(s ast.Stmt, owner *ast.FuncDecl, depth int) []ast
 		if len(x.Results) == 1 {
 			if ce, ok := x.Results[0].(*ast.CallExpr); ok {
 				if g := in.candidateCallee(ce); g != nil {
-					if repl, ok := in.expand(ce, g, nil, token.ILLEGAL, x, false); ok {
+					if repl, ok := in.expand(ce, g, nil, token.ILLEGAL, x, func(rs []ast.Expr) []ast.Stmt {
+						return []ast.Stmt{&ast.ReturnStmt{Results: rs}}
+					}, true); ok {
 						return in.again(repl, owner, depth)
 					}
 				}
@@ -557,6 +562,9 @@ func (in *inliner) rewriteStmt(s ast.Stmt, owner *ast.FuncDecl, depth int) []ast
 			es = append(es, &x.Results[i])
 		}
 		if pre, ok := in.hoist(s, es); ok {
+			if repl, ok := in.tailDup(pre, s, true); ok {
+				return repl
+			}
 			return in.again(append(pre, s), owner, depth)
 		}
 	case *ast.DeclStmt:
@@ -860,7 +868,11 @@ func (in *inliner) hoist(s ast.Stmt, exprs []*ast.Expr) ([]ast.Stmt, bool) {
 
 // expand builds the replacement of one call. Exactly one of (lhs/tok), ret, or neither
 // (expression statement) describes how the results are used.
-func (in *inliner) expand(ce *ast.CallExpr, g *types.Func, lhs []ast.Expr, tok token.Token, ret *ast.ReturnStmt, _ bool) ([]ast.Stmt, bool) {
+// consume, when non-nil, builds the statements that use the results at each return point of
+// the callee (the consumer statement is duplicated into the inlined body - tail duplication -
+// so that no join of the result values is created); terminal tells that those statements end
+// the enclosing function themselves (a return).
+func (in *inliner) expand(ce *ast.CallExpr, g *types.Func, lhs []ast.Expr, tok token.Token, ret *ast.ReturnStmt, consume func(results []ast.Expr) []ast.Stmt, terminal bool) ([]ast.Stmt, bool) {
 	fd := in.decls[g]
 	sig := g.Type().(*types.Signature)
 	keep := func(reason string) ([]ast.Stmt, bool) {
@@ -1015,7 +1027,9 @@ func (in *inliner) expand(ce *ast.CallExpr, g *types.Func, lhs []ast.Expr, tok t
 	for i := 0; i < nres; i++ {
 		rn := fmt.Sprintf("%sr%d", pfx, i)
 		rnames = append(rnames, rn)
-		pre = append(pre, declVar(rn, sig.Results().At(i).Type(), nil))
+		if consume == nil {
+			pre = append(pre, declVar(rn, sig.Results().At(i).Type(), nil))
+		}
 	}
 	var named []string
 	for i := 0; i < nres; i++ {
@@ -1038,6 +1052,39 @@ func (in *inliner) expand(ce *ast.CallExpr, g *types.Func, lhs []ast.Expr, tok t
 	bad := ""
 	mkReturn := func(rs *ast.ReturnStmt, last bool) ast.Stmt {
 		var list []ast.Stmt
+		if consume != nil {
+			var vals []ast.Expr
+			switch {
+			case nres == 0:
+			case len(rs.Results) == 0:
+				if !hasNamed {
+					bad = "bare return without named results"
+					return rs
+				}
+				for i := range named {
+					vals = append(vals, ast.NewIdent(named[i]))
+				}
+			case len(rs.Results) != nres:
+				bad = "return of a multi-value call"
+				return rs
+			default:
+				// each result is converted to its declared type, as the return would do
+				for i, r := range rs.Results {
+					te, err := parser.ParseExpr(types.TypeString(sig.Results().At(i).Type(), qual))
+					if err != nil {
+						bad = "result type"
+						return rs
+					}
+					vals = append(vals, &ast.CallExpr{Fun: &ast.ParenExpr{X: te}, Args: []ast.Expr{r}})
+				}
+			}
+			list = append(list, consume(vals)...)
+			if !last && !terminal {
+				usedGoto = true
+				list = append(list, &ast.BranchStmt{Tok: token.GOTO, Label: ast.NewIdent(label)})
+			}
+			return &ast.BlockStmt{List: list}
+		}
 		switch {
 		case nres == 0:
 		case len(rs.Results) == 0:
@@ -1094,6 +1141,10 @@ func (in *inliner) expand(ce *ast.CallExpr, g *types.Func, lhs []ast.Expr, tok t
 	}
 	var tail ast.Stmt
 	switch {
+	case consume != nil:
+		if usedGoto {
+			tail = &ast.EmptyStmt{}
+		}
 	case ret != nil:
 		tail = &ast.ReturnStmt{Results: results}
 	case lhs != nil:
@@ -1341,4 +1392,40 @@ func funcWords(fd *ast.FuncDecl) map[string]bool {
 		return true
 	})
 	return w
+}
+
+
+// tailDup: `t := h(x); S(t)` where S is one statement without further candidate calls becomes
+// the inlined body of h with `t := <result>; S(t)` at each of its return points, so that the
+// statement keeps the guards under which each result is produced (no join of results).
+func (in *inliner) tailDup(pre []ast.Stmt, s ast.Stmt, terminal bool) ([]ast.Stmt, bool) {
+	if len(pre) != 1 || in.stmtHasCandidate(s) {
+		return nil, false
+	}
+	as, ok := pre[0].(*ast.AssignStmt)
+	if !ok || as.Tok != token.DEFINE || len(as.Lhs) != 1 || len(as.Rhs) != 1 {
+		return nil, false
+	}
+	tmp, ok := as.Lhs[0].(*ast.Ident)
+	if !ok {
+		return nil, false
+	}
+	ce, ok := as.Rhs[0].(*ast.CallExpr)
+	if !ok {
+		return nil, false
+	}
+	g := in.candidateCallee(ce)
+	if g == nil || g.Type().(*types.Signature).Results().Len() != 1 {
+		return nil, false
+	}
+	consume := func(rs []ast.Expr) []ast.Stmt {
+		if len(rs) != 1 {
+			return nil
+		}
+		return []ast.Stmt{
+			&ast.AssignStmt{Lhs: []ast.Expr{ast.NewIdent(tmp.Name)}, Tok: token.DEFINE, Rhs: []ast.Expr{rs[0]}},
+			copyNode(s).(ast.Stmt),
+		}
+	}
+	return in.expand(ce, g, nil, token.ILLEGAL, nil, consume, terminal)
 }
